@@ -8,7 +8,7 @@ from .. import gen
 from ..engine import Result
 from ..refmodel import ref_gdd
 from ..observe import innermost_repo_frame
-from .common import F, G, base_sample, cfg_simplifications, observe, rows, weather_at
+from .common import ConfiguredCrop, F, G, base_sample, cfg_simplifications, observe, rows, weather_at
 
 ID = "C07"
 RULE = ("Hypothesis-generated windows: start on / 1-40 days before / 1-200 days after the planting date, end after harvest / "
@@ -18,6 +18,7 @@ RULE = ("Hypothesis-generated windows: start on / 1-40 days before / 1-200 days 
         "configuration: >=2 seasons reached, or a start strictly before the first planting date, or an end inside a season; "
         "distinct = configuration hash.")
 ASSUMPTIONS = [
+    "crop length (calendar days or degree days), degree-day method and temperatures are the CONFIGURED values (for a calendar crop converted by SwitchGDD the model's converted thermal values are used); the latest harvest date must be the configured one, or planting + crop length + 30 days when not configured",
     "crop death is read from the model state (it cannot be inferred from outputs); maturity is recomputed independently (days after planting, or degree days recomputed from the harness's weather copy with the FAO formulas)",
     "the number of scheduled seasons and the resolved latest-harvest dates are taken from the model's clock; their spacing, first date and the per-day consequences are checked",
     "stepping through the run in other partitions is covered by C09 (bitwise equality with the one-day stepping used here)",
@@ -69,6 +70,16 @@ def evaluate(cfg):
     for k, (p, h) in enumerate(zip(pds, hds)):
         if not (p < h <= p + pd.Timedelta(days=366)):
             res.fail("harvest_date_order", "season %d: latest harvest date %s not within a year after planting %s" % (k, h.date(), p.date()))
+    CC = ConfiguredCrop(cfg)
+    hv = cfg["crop"].get("harvest")
+    for k, (p_, h_) in enumerate(zip(pds, hds)):
+        if hv:
+            if "%02d/%02d" % (h_.month, h_.day) != "%02d/%02d" % tuple(int(x) for x in hv.split("/")):
+                res.fail("harvest_date_value", "season %d: latest harvest date %s is not the configured %s" % (k, h_.date(), hv))
+        elif int(CC.get("CalendarType")) == 1 and not int(CC.get("SwitchGDD") or 0):
+            want = pd.Timestamp(1990, pm, pd_) + pd.Timedelta(days=int(float(CC.get("MaturityCD")) + 30))
+            if (h_.month, h_.day) != (want.month, want.day):
+                res.fail("harvest_date_value", "season %d: latest harvest date %s, expected planting + crop length + 30 days = %02d/%02d" % (k, h_.date(), want.month, want.day))
     if res.violations:
         return res
     # ---- walk --------------------------------------------------------------------------------------
@@ -120,15 +131,17 @@ def evaluate(cfg):
         if in_season:
             c = crops[active]
             if int(c.CalendarType) == 1:
-                mature = exp_dap >= float(c.Maturity)
+                mature = exp_dap >= float(CC.get("MaturityCD"))     # configured crop length (calendar days)
             else:
-                g = ref_gdd(int(c.GDDmethod), float(c.Tupp), float(c.Tbase), W[i, 1], W[i, 0])
+                switched = int(CC.get("CalendarType")) == 1          # calendar crop converted by SwitchGDD: model's thermal values
+                mat_gdd = float(c.Maturity) if switched else float(CC.get("Maturity"))
+                g = ref_gdd(int(CC.get("GDDmethod")), float(CC.get("Tupp")), float(CC.get("Tbase")), W[i, 1], W[i, 0])
                 gcum += g
                 if abs(g - gr[i, G["gdd"]]) > 1e-9 or abs(gcum - gr[i, G["gdd_cum"]]) > 1e-9 * max(1.0, gcum):
                     res.fail("gdd_reference", "step %d: degree days %.9g (cum %.9g) differ from the reference %.9g (cum %.9g)" % (
                         i, gr[i, G["gdd"]], gr[i, G["gdd_cum"]], g, gcum))
                     break
-                mature = gcum >= float(c.Maturity)
+                mature = gcum >= mat_gdd
             dead = tr.post[i]["crop_dead"]
             latest = (d + pd.Timedelta(days=1)) == hds[active]
             event = bool(mature or dead or latest)
